@@ -457,13 +457,16 @@ def run_impl(c):
             order, read = _caller_order(c, np)
             res['caller_type_before'] = type(order).__name__
             rule = async_cls(apply_rule=make_wrapped(), update_order=order, randomize_each_cycle=c['rand'])
-        gc.collect()
+        if c['kind'].startswith('lifetime'):
+            gc.collect()    # reference counting already frees an unreferenced owner; a full collection per case is
+                            # only worth its (heap-size dependent) cost in the lifetime buckets
         out = ev(rule, hist, c['T'])
         res['rows'] = np.asarray(out).tolist()
         if c.get('calls'):
             res['seq'] = [{'hist': c['hist'], 'T': c['T'], 'rows': res['rows']}]
             for x in c['calls']:
-                gc.collect()
+                if c['kind'].startswith('lifetime'):
+                    gc.collect()
                 h = np.asarray(out) if x['mode'] == 'cont' else np.array(x['hist'])
                 out = ev(rule, h, x['T'])
                 res['seq'].append({'hist': h.tolist(), 'T': x['T'], 'rows': np.asarray(out).tolist()})
